@@ -13,7 +13,7 @@ OUT = '/tmp/mut/out'
 
 
 def sh(cmd, cwd=None, timeout=3600):
-    p = subprocess.run(cmd, shell=True, cwd=cwd, env=ENV, capture_output=True, text=True, timeout=timeout)
+    p = subprocess.run(cmd, shell=True, cwd=cwd, env=ENV, capture_output=True, text=True, errors='replace', timeout=timeout)
     return p.returncode, p.stdout + p.stderr
 
 
@@ -25,6 +25,7 @@ def main():
         tier = sys.argv[sys.argv.index('--tier') + 1]
     if '--no-confirm' in sys.argv:
         confirm = False
+    confirm_only = '--confirm-only' in sys.argv
     prop = mid.split('-')[0]
     diff = f'{OUT}/{mid}.diff'
     demo = f'{OUT}/{mid}_demo_test.go'
@@ -59,6 +60,19 @@ def main():
         finally:
             sh(f'git -C /repo worktree remove --force {wt}')
         res['confirmed'] = bool(res.get('baseline_passes_with_change') and res.get('demo_fails_with_change') and res.get('demo_passes_without'))
+    if confirm_only:
+        os.makedirs(sdir, exist_ok=True)
+        shutil.copy(diff, f'{sdir}/patch.diff')
+        shutil.copy(demo, f'{sdir}/demo_test.go')
+        prev = json.load(open(f'{sdir}/meta.json')) if os.path.exists(f'{sdir}/meta.json') else {}
+        prev.update({'id': mid, 'breaks_property': prop, 'title': meta.get('title'), 'needs_to_manifest': meta.get('needs'),
+                     'files_changed': meta.get('files_changed'), 'demo_package_dir': meta.get('demo_package_dir'), 'demo_test_name': meta.get('demo_test_name'),
+                     'confirmed_by_me': {k: res.get(k) for k in ['applies', 'baseline_passes_with_change', 'demo_fails_with_change', 'demo_passes_without', 'confirmed']},
+                     'source': 'written by an independent sub-agent that saw only the property text'})
+        prev.setdefault('check_runs', [])
+        json.dump(prev, open(f'{sdir}/meta.json', 'w'), indent=1)
+        print(json.dumps({k: res[k] for k in res if k not in ('agent_meta', 'demo_output_with_change')}, indent=1))
+        return 0
     # run the registered check against the change
     rc, o = sh('git -C /repo status --short')
     if o.strip():
